@@ -11,7 +11,7 @@ package newick
 // ReadByte returns io.EOF, or - if fault - a non-EOF error err (once or forever).
 
 //@ func reader.nextToken
-//@   props C07 C11 C18
+//@   props C07 C11 C18 C05 C06
 //@   let S := r.r
 //@   let p0 := old(r.r.pos)
 //@   let active0 := S.fault && (!old(r.r.fired) || S.forever)
@@ -52,7 +52,7 @@ package newick
 //@     decreases S.end - r.r.pos
 
 //@ func reader.read
-//@   props C07 C11 C18
+//@   props C07 C11 C18 C06 C05
 //@   thin
 //@   let S := r.r
 //@   let p0 := old(r.r.pos)
@@ -158,7 +158,7 @@ package newick
 // name is written between single quotes.
 
 //@ func nameToText
-//@   props C05
+//@   props C05 C07
 //@   let special := exists k int :: 0 <= k && k < len(s) && nwQ(s[k])
 //@   ensures !special ==> len(result) == len(s) && forall k int :: 0 <= k && k < len(s) ==> result[k] == (s[k] == 32 ? '_' : s[k])
 //@   ensures !special ==> forall k int :: 0 <= k && k < len(result) ==> !nwWS(result[k]) && !nwSep(result[k]) && result[k] != 39
@@ -166,11 +166,11 @@ package newick
 //@   ensures special ==> len(result) == len(dq(s)) + 2 && forall k int :: 0 <= k && k < len(dq(s)) ==> result[1 + k] == dq(s)[k]
 
 //@ func quoted
-//@   props C05 C11
+//@   props C05 C11 C07 C18
 //@   ensures result <==> (len(s) >= 2 && s[0] == 39 && s[len(s) - 1] == 39)
 
 //@ func nameFromText
-//@   props C05 C11
+//@   props C05 C11 C07 C18
 //@   ensures len(s) >= 2 && s[0] == 39 && s[len(s) - 1] == 39 ==> result == uq(substr(s, 1, len(s) - 1))
 //@   ensures !(len(s) >= 2 && s[0] == 39 && s[len(s) - 1] == 39) ==>
 //@             len(result) == len(s) && forall k int :: 0 <= k && k < len(s) ==> result[k] == (s[k] == '_' ? 32 : s[k])
